@@ -69,13 +69,23 @@ def mk_instr_cls(cls, kinds, values):
     return cls.from_operands([mk_operand(k, v) for k, v in zip(kinds, values)])
 
 
-def edit_in_place(instr, donor) -> None:
+def edit_in_place(instr, donor, named: bool = False) -> None:
     """Overwrite the operand fields of `instr` with those of `donor` (same class), the way a consumer such as the NV
     transpiler edits instructions it was handed (`instr.line = ...`, `instr.reg0 = ...`)."""
     import dataclasses
     for f in dataclasses.fields(instr):
         if f.name not in ("id", "mnemonic", "lineno"):
             setattr(instr, f.name, getattr(donor, f.name))
+    if named:
+        # ... and once more through the operand's NAMED accessors (instr.ent_results_array = ..., instr.angle_num = ...), which a
+        # compiler pass would rather use than reg3 / imm0: each must write the field it reads
+        for name in dir(type(instr)):
+            prop = getattr(type(instr), name, None)
+            if isinstance(prop, property) and prop.fset is not None and not name.startswith("_") and name not in ("operands",):
+                try:
+                    setattr(instr, name, getattr(donor, name))
+                except Exception:
+                    pass
 
 
 def describe_operand(o):
